@@ -3,6 +3,8 @@ package checks
 import (
 	"fmt"
 	"sort"
+	"strings"
+	"sync"
 
 	"verif/engine/gosym"
 	. "verif/engine/oracle"
@@ -150,7 +152,7 @@ func c01Shapes() []Shape {
 }
 
 func classifyEq(prop string, o eqOutcome) string {
-	if o.Probe {
+	if o.Probe && !o.PerClass {
 		return fmt.Sprintf("%s.%s.outside-modelled-bash-subset", prop, o.Shape)
 	}
 	if o.Sub != "" {
@@ -169,7 +171,11 @@ func runShapes(r *Run, shapes []Shape, o eqOpts, perShapePaths int) {
 		st := r.Eng.Explore(func(c *gosym.Ctx) interface{} { return bashEquiv(r, c, sh, o) },
 			gosym.ExploreOpts{Workers: r.Workers, TimeoutMS: 10000, Budget: gosym.Budget{MaxPaths: perShapePaths}, OnPath: func(pr *gosym.PathResult) {
 				if pb, ok := pr.Probe.(eqOutcome); ok && len(diffs) < 50000 {
-					diffs = append(diffs, pb)
+					if len(pb.More) > 0 {
+						diffs = append(diffs, pb.More...)
+					} else {
+						diffs = append(diffs, pb)
+					}
 				}
 				eo, isEo := pr.Ret.(eqOutcome)
 				if !isEo {
@@ -225,15 +231,24 @@ func runShapes(r *Run, shapes []Shape, o eqOpts, perShapePaths int) {
 			}
 			return diffs[i].Src+diffs[i].Data < diffs[j].Src+diffs[j].Data
 		})
+		skeletons := map[string]bool{}
 		for _, d := range diffs {
 			if _, ok := byClass[d.Class]; !ok {
 				order = append(order, d.Class)
 			}
-			limit := 6
 			if d.Probe {
-				limit = 16
+				// probes: one candidate per program skeleton (the program with the data bytes blanked out), i.e. per path
+				sk := d.Src
+				if d.Data != "" {
+					sk = strings.ReplaceAll(sk, d.Data, "\x00")
+				}
+				if key := d.Class + "\x01" + sk; !skeletons[key] && len(byClass[d.Class]) < 400 {
+					skeletons[key] = true
+					byClass[d.Class] = append(byClass[d.Class], d)
+				}
+				continue
 			}
-			if n := len(byClass[d.Class]); n < limit && (n == 0 || byClass[d.Class][n-1].Src != d.Src) {
+			if n := len(byClass[d.Class]); n < 6 && (n == 0 || byClass[d.Class][n-1].Src != d.Src) {
 				byClass[d.Class] = append(byClass[d.Class], d)
 			}
 		}
@@ -241,6 +256,15 @@ func runShapes(r *Run, shapes []Shape, o eqOpts, perShapePaths int) {
 			r.AddCount("disagreements_checked", 1)
 			handled := false
 			var last eqOutcome
+			if cs := byClass[cl]; len(cs) > 1 && cs[0].Probe && r.ID != "C05" {
+				// many probe instances: run them side by side and keep the first one that misbehaves
+				r.AddCount("paths_decided_by_concrete_probe_only", len(cs))
+				if i := firstConfirmed(r, sh, cs); i >= 0 {
+					byClass[cl] = cs[i : i+1]
+				} else {
+					continue
+				}
+			}
 			for _, d := range byClass[cl] {
 				stdin := d.Stdin
 				if stdin == "" {
@@ -295,4 +319,39 @@ func CheckC01(r *Run) int {
 	r.Assume("ShSem (oracle/shparse.go, sheval.go): semantics of the emitted Bash subset; calibrated against /bin/bash on the repository's test programs by `verif selftest`; every counterexample is re-run on the real bash before being reported")
 	r.Assume("excluded inputs: division/modulo by zero, loops beyond 24 iterations")
 	return r.Finish("translation_validation")
+}
+
+// firstConfirmed runs the candidates natively, 12 at a time, and returns the index of the first one that reproduces (-1: none).
+func firstConfirmed(r *Run, sh Shape, cs []eqOutcome) int {
+	const width = 12
+	for base := 0; base < len(cs); base += width {
+		end := min(base+width, len(cs))
+		res := make([]bool, end-base)
+		var wg sync.WaitGroup
+		for i := base; i < end; i++ {
+			wg.Add(1)
+			go func(i int) {
+				defer wg.Done()
+				d := cs[i]
+				stdin := d.Stdin
+				if stdin == "" {
+					for _, l := range sh.Stdin {
+						stdin += l + "\n"
+					}
+				}
+				pre := sh.Pre
+				if d.Pre != nil {
+					pre = d.Pre
+				}
+				res[i-base], _ = confirmBash(r, d, pre, stdin)
+			}(i)
+		}
+		wg.Wait()
+		for i, ok := range res {
+			if ok {
+				return base + i
+			}
+		}
+	}
+	return -1
 }
